@@ -67,6 +67,8 @@ def oracle(ctx, kind, L, vals, reads, case, scale):
 
 
 def check(ctx):
+    from harness import formulas
+    formulas.check_formulas(ctx, ['RunningMean._accumulate_obj'])
     rng = ctx.rng
     cases = []
     for _ in range(ctx.scale(260, 3000)):
